@@ -2,7 +2,7 @@
 import hashlib, json, os, sys
 import vlib
 sys.path.insert(0, os.path.join(vlib.VERIF, "translators", "codec"))
-import codecgen
+import codecgen, tmplgen
 
 TRUSTED = ["Coq kernel 8.16.1", "Coq extraction (ExtrOcamlBasic) + OCaml 4.13.1", "runner/Codec/driver.ml",
            "translators/codec (schemadump through the repository's own codegen front end + verif hook, codecgen.py)",
@@ -56,6 +56,15 @@ def translate(R):
         R.proof_problems.append("schema translation: " + str(e))
         return None
     changed = vlib.write_if_changed(os.path.join(vlib.COQ, "Codec", "GenSchemas.v"), text)
+    # the generator's templates (control skeleton of ModelParse, progress statements of the repeated-field readers)
+    try:
+        tm = tmplgen.templates(vlib.REPO)
+        tchanged = vlib.write_if_changed(os.path.join(vlib.COQ, "Codec", "GenTemplates.v"), tmplgen.emit_coq(tm))
+        R.coverage["templates"] = dict(gen_templates_rewritten=tchanged, translated={k: v for k, v in tm.items()})
+        if tchanged:
+            R.log("GenTemplates.v rewritten: the generator's ModelParse template differs from the last translated one")
+    except (tmplgen.XlateError, OSError) as e:
+        R.proof_problems.append("the code generator's templates no longer have the translated shape (GenTemplates.v not regenerated): " + str(e)[:500])
     json.dump(pkgs, open(os.path.join(rundir(R), "schemas.json"), "w"))
     nmodels = sum(len(p["models"]) for p in pkgs)
     ngen = sum(len(p["generated_encoders"]) for p in pkgs)
@@ -64,6 +73,33 @@ def translate(R):
                                     per_package={p["dir"]: len(p["models"]) for p in pkgs})
     R.log("translated %d packages, %d models (%d encoders in generated sources)%s" % (len(pkgs), nmodels, ngen, ", GenSchemas.v rewritten" if changed else ""))
     return pkgs
+
+
+def prove(R):
+    """R.prove("Codec"); when the build stops in Tmpl.v, name the template fact that no longer holds."""
+    ok = R.prove("Codec")
+    if not ok:
+        import re
+        try:
+            log = open(os.path.join(R.work, "coq-make.log")).read()
+            m = re.search(r'File "\./Tmpl\.v", line (\d+)', log)
+            if m:
+                text = open(os.path.join(vlib.COQ, "Codec", "Tmpl.v")).read().split("\n")[:int(m.group(1))]
+                names = re.findall(r"(?m)^\s*(?:Lemma|Theorem)\s+([A-Za-z_0-9']+)", "\n".join(text))
+                gen = open(os.path.join(vlib.COQ, "Codec", "GenTemplates.v")).read()
+                fact = names[-1] if names else "?"
+                defn = ""
+                mm = re.search(r"(?m)^Definition t_%s\b.*$" % re.escape(fact[2:]), gen) if fact.startswith("f_") else None
+                if mm:
+                    defn = " — translated from the template: " + mm.group(0)
+                msg = ("generator template: %s of coq/Codec/Tmpl.v no longer holds for the translated template "
+                       "(the generated parsers are no longer the loop the C13/C04 theorems are about)%s" % (fact, defn))
+                R.proof_problems.append(msg)
+                R.log(msg)
+                R.coverage.setdefault("templates", {})["broken_fact"] = fact
+        except OSError:
+            pass
+    return ok
 
 
 def build(R, pkgs):
